@@ -17,3 +17,19 @@ fn p14(o: Option<u8>) -> (r: Result<u8, u8>) ensures r == (if o is Some { Ok::<u
 fn p15(v: &Vec<u8>) -> (r: Option<&u8>) ensures v@.len() == 0 ==> r is None, v@.len() > 0 ==> r == Some(&v@[v@.len() - 1]) { v.last() }
 }
 fn main(){}
+use vstd::prelude::*;
+use std::collections::{HashSet, HashMap, VecDeque};
+verus! {
+fn q1(v: &mut VecDeque<u8>) -> (r: Option<u8>) ensures old(v)@.len() > 0 ==> r == Some(old(v)@.last()) && final(v)@ == old(v)@.drop_last(), old(v)@.len() == 0 ==> r is None { v.pop_back() }
+fn q4(v: &mut Vec<u8>) ensures final(v)@.len() == 0 { v.clear() }
+fn q5(v: &mut Vec<u8>, n: usize) ensures n <= old(v)@.len() ==> final(v)@ == old(v)@.subrange(0, n as int), n > old(v)@.len() ==> final(v)@ == old(v)@ { v.truncate(n) }
+fn q6(v: &mut Vec<u8>) -> (r: Option<u8>) ensures old(v)@.len() > 0 ==> r == Some(old(v)@.last()) && final(v)@ == old(v)@.drop_last(), old(v)@.len() == 0 ==> r is None { v.pop() }
+fn q7(v: &Vec<u8>) -> (r: Option<&u8>) ensures v@.len() > 0 ==> r == Some(&v@[0]), v@.len() == 0 ==> r is None { v.first() }
+fn q8(o: &mut Option<u8>) -> (r: Option<u8>) ensures r == *old(o), *final(o) == None::<u8> { o.take() }
+fn q10(v: &mut VecDeque<u8>) ensures final(v)@.len() == 0 { v.clear() }
+fn q11(v: &mut Vec<u8>, s: &[u8]) ensures final(v)@ == old(v)@ + s@ { v.extend_from_slice(s) }
+fn q12(a: usize, b: usize) -> (r: usize) ensures r == if a > b { a } else { b } { a.max(b) }
+fn q13(v: &mut VecDeque<u8>, i: usize) -> (r: Option<u8>) ensures i < old(v)@.len() ==> r == Some(old(v)@[i as int]) && final(v)@ == old(v)@.remove(i as int) { v.remove(i) }
+fn q14(m: &HashMap<u64, u8>, k: u64) -> (r: bool) ensures r == m@.contains_key(k) { broadcast use vstd::std_specs::hash::group_hash_axioms; m.contains_key(&k) }
+}
+fn main(){}
